@@ -105,6 +105,68 @@ static int lookup_id (int k) {
 	return v ? v->id : 0;
 }
 
+/* ---- deep AVL tree (thorough tier): the sparsest AVL tree of height H (a Fibonacci tree, N(H) = N(H-1) + N(H-2) + 1 pairs) is built by inserting
+ * its keys level by level (no rotation happens on the way), then the deepest leaf is removed, which makes the height change travel all the way to the
+ * root.  Afterwards the shape is rebuilt from the keys the comparator is shown during one lookup per key, and the largest difference between the
+ * heights of the two subtrees of any node is reported (event "deep").  Keys are numbers cast to pointers; nodes come from a bump allocator. */
+static char *bump_base; static size_t bump_off, bump_cap;
+static ppointer bump_malloc (psize n) { size_t a = (n + 15) & ~(size_t) 15; void *p; if (bump_off + a > bump_cap) return NULL; p = bump_base + bump_off; bump_off += a; memset (p, 0xA5, n); return p; }
+static ppointer bump_realloc (ppointer p, psize n) { void *q = bump_malloc (n); (void) p; return q; }
+static void bump_free (ppointer p) { (void) p; }
+static int *dp_path; static int dp_np; static int dp_rec;
+static pint cmp_deep (pconstpointer a, pconstpointer b) { long x = (long) a, y = (long) b; if (dp_rec && dp_np < 128) dp_path[dp_np++] = (int) y; return x < y ? -1 : (x > y ? 1 : 0); }
+static void deep_scenario (int H) {
+	static long N[64]; int h, i; long n, q_head = 0, q_tail = 0, k; PMemVTable vt; PTree *t; double t0;
+	typedef struct { int h; int off; } QE; QE *q;
+	int *parent; unsigned char *depth, *hl, *hr; int maxdepth = 0, maxdiff = 0, sorted_ok = 1; long bad_node = 0;
+	N[0] = 0; N[1] = 1; for (h = 2; h <= H; h++) N[h] = N[h - 1] + N[h - 2] + 1;
+	n = N[H];
+	bump_cap = (size_t) n * 64 + (1 << 20); bump_base = malloc (bump_cap); bump_off = 0;
+	q = malloc ((size_t) (n + 1) * sizeof (QE)); parent = calloc ((size_t) n + 2, sizeof (int)); depth = calloc ((size_t) n + 2, 1); hl = calloc ((size_t) n + 2, 1); hr = calloc ((size_t) n + 2, 1);
+	dp_path = malloc (128 * sizeof (int));
+	if (!bump_base || !q || !parent || !depth || !hl || !hr) { vt_emit ("{\"e\":\"deep\",\"h\":%d,\"n\":0,\"maxdiff\":0,\"skipped\":1}", H); return; }
+	p_mem_restore_vtable ();
+	vt.f_malloc = bump_malloc; vt.f_realloc = bump_realloc; vt.f_free = bump_free; p_mem_set_vtable (&vt);
+	t = p_tree_new (P_TREE_TYPE_AVL, cmp_deep);
+	t0 = 0; (void) t0;
+	q[q_tail].h = H; q[q_tail].off = 0; q_tail++;
+	while (q_head < q_tail) {
+		QE e = q[q_head++]; long root; int top = q_head == 1, hl_ = top ? e.h - 2 : e.h - 1, hr_ = top ? e.h - 1 : e.h - 2;
+		if (e.h <= 0) continue;
+		/* every subtree is left-heavy by one, except at the root, where the SHORTER subtree is on the left: the leaf removed below is the
+		 * deepest one of that shorter side, so that the root itself has to be rotated - H - 1 levels above the leaf */
+		root = e.off + N[hl_] + 1;
+		p_tree_insert (t, (ppointer) root, (ppointer) root);
+		if (hl_ > 0) { q[q_tail].h = hl_; q[q_tail].off = e.off; q_tail++; }
+		if (hr_ > 0) { q[q_tail].h = hr_; q[q_tail].off = (int) root; q_tail++; }
+	}
+	if (p_tree_get_nnodes (t) != n) vt_die ("deep: wrong node count after the build");
+	if (!p_tree_remove (t, (ppointer) 1L)) vt_die ("deep: the deepest leaf was not found");
+	/* rebuild the shape: one lookup per key, the path the comparator saw gives depth and parent */
+	dp_rec = 1;
+	for (k = 2; k <= n; k++) {
+		dp_np = 0;
+		if ((long) p_tree_lookup (t, (ppointer) k) != k) { sorted_ok = 0; bad_node = k; break; }
+		if (dp_np < 1 || dp_path[dp_np - 1] != (int) k) { sorted_ok = 0; bad_node = k; break; }
+		depth[k] = (unsigned char) (dp_np - 1); parent[k] = dp_np >= 2 ? dp_path[dp_np - 2] : 0;
+		if (dp_np - 1 > maxdepth) maxdepth = dp_np - 1;
+	}
+	dp_rec = 0;
+	if (sorted_ok) {
+		int d;
+		for (d = maxdepth; d >= 1; d--)
+			for (k = 2; k <= n; k++) if (depth[k] == d) {
+				int hk = 1 + (hl[k] > hr[k] ? hl[k] : hr[k]), pa = parent[k];
+				if (k < pa) { if (hk > hl[pa]) hl[pa] = (unsigned char) hk; } else { if (hk > hr[pa]) hr[pa] = (unsigned char) hk; }
+			}
+		for (k = 2; k <= n; k++) { int df = hl[k] > hr[k] ? hl[k] - hr[k] : hr[k] - hl[k]; if (df > maxdiff) { maxdiff = df; bad_node = k; } }
+	}
+	vt_emit ("{\"e\":\"deep\",\"h\":%d,\"n\":%ld,\"after\":%d,\"lookups_ok\":%d,\"maxdepth\":%d,\"maxdiff\":%d,\"at\":%ld,\"skipped\":0}", H, n, (int) p_tree_get_nnodes (t), sorted_ok, maxdepth, maxdiff, bad_node);
+	p_tree_free (t);
+	p_mem_restore_vtable ();
+	{ PMemVTable v2; v2.f_malloc = pz_malloc; v2.f_realloc = pz_realloc; v2.f_free = pz_free; p_mem_set_vtable (&v2); }
+	free (bump_base); free (q); free (parent); free (depth); free (hl); free (hr); free (dp_path);
+}
 int main (int argc, char **argv) {
 	FILE *in; char line[256]; char op[32]; int a, b, c;
 	if (argc < 3) return 2;
@@ -123,6 +185,7 @@ int main (int argc, char **argv) {
 			next_id = 1; data_bad = 0;
 			vt_emit ("{\"e\":\"Reset\"}");
 		}
+		else if (!strcmp (op, "deep")) { if (tree) { p_tree_free (tree); tree = NULL; } deep_scenario (a); }
 		else if (!strcmp (op, "new")) {
 			ty = a; nf = b; wd = c; cstyle = ntrees % 3; nullmode = ntrees % 2 == 1; nullk_cur = 0; ntrees++;
 			/* nf: 0 no notifiers, 1 both, 2 key only, 3 value only */
